@@ -544,7 +544,8 @@ class PixelAlgorithms(AccessorBase):
                 output_core_dims=[["time"]],
                 keep_attrs=True,
                 dask="parallelized",
-                dask_gufunc_kwargs={"meta": self._obj.data.astype(dtype)},
+                # the kernels return int16; the requested dtype is applied below
+                dask_gufunc_kwargs={"meta": self._obj.data.astype("int16")},
             )
 
         else:
@@ -582,7 +583,8 @@ class PixelAlgorithms(AccessorBase):
                 output_core_dims=[["time"]],
                 keep_attrs=True,
                 dask="parallelized",
-                dask_gufunc_kwargs={"meta": self._obj.data.astype(dtype)},
+                # the kernels return int16; the requested dtype is applied below
+                dask_gufunc_kwargs={"meta": self._obj.data.astype("int16")},
             )
 
         res.attrs.update(
@@ -592,7 +594,7 @@ class PixelAlgorithms(AccessorBase):
             }
         )
 
-        return res
+        return res.astype(dtype)
 
     def croo(self):
         """Compute current run of ones along time dimension."""
@@ -780,10 +782,11 @@ class RollingWindowAlgos(AccessorBase):
             output_core_dims=[[dimension]],
             keep_attrs=True,
             dask="parallelized",
-            dask_gufunc_kwargs={"meta": self._obj.astype(dtype).data},
+            # rolling_sum returns float32; the requested dtype is applied below
+            dask_gufunc_kwargs={"meta": self._obj.astype("float32").data},
         )
         xx = xx[..., window_size - 1 :]
-        return xx
+        return xx.astype(dtype)
 
 
 class ZonalStatistics(AccessorBase):
